@@ -1,6 +1,7 @@
 import MosnVerif.Drive.Util
 import MosnVerif.Model.UpdatesSpec
 import MosnVerif.Model.DumpProto
+import MosnVerif.Model.ResourceUpd
 /-!
 Driver for C12. Case line: `hist <op> …` (one token per operation, fields separated by `/`), implementation output:
 `<results> <liveRouters> <rebuiltRouters> <liveClusters> <rebuiltClusters>` (see harness/c12/c12.go).
@@ -312,10 +313,89 @@ def rlock (initTok aTok bTok : String) (impl : List String) : String :=
     s!"{if agree then "A" else "D"} {if spec then "S" else "V"} {m.1} {m.2.1} {m.2.2}"
   | _, _, _, _ => "E E bad-rlock-case"
 
+/-! `rsrc <op> …`: updates of one cluster's circuit-breaker thresholds mixed with host updates, removal and requests in flight
+(harness/c12/rsrc.go). Implementation output: one token `<res>|<live max/cur>|<host max/cur>|<rebuilt max>` per step. -/
+namespace Rsrc
+open MosnVerif.Model MosnVerif.Gen.ResourceUpd
+
+def parseMaxes (s : String) : Option Maxes :=
+  match (s.splitOn ",").mapM String.toNat? with
+  | some [a, b, c, d] => some ⟨a, b, c, d⟩
+  | _ => none
+
+def parseCurs (s : String) : Option ResourceUpd.Curs :=
+  match (s.splitOn ",").mapM String.toInt? with
+  | some [a, b, c, d] => some ⟨a, b, c, d⟩
+  | _ => none
+
+def parseRes (s : String) : Option ResourceUpd.Rsrc :=
+  if s == "c" then some .conn else if s == "p" then some .pend else if s == "q" then some .req else if s == "t" then some .retr else none
+
+def parseVia (s : String) : Option ResourceUpd.Via :=
+  match s.toUpper with
+  | "P" => some .primary
+  | "H0" => some (.andHost false)
+  | "H1" => some (.andHost true)
+  | _ => none
+
+def parseOp (tok : String) : Option ResourceUpd.Op :=
+  match tok.splitOn "/" with
+  | ["U", via, typ, cb] => do
+    let v ← parseVia via
+    let t ← typ.toNat?
+    let c ← if cb == "-" || cb == "_" then some [] else (cb.splitOn ";").mapM parseMaxes
+    pure (.update v ⟨t, c⟩)
+  | ["S", n] => if n == "0" then some (.setHosts false) else if n == "1" then some (.setHosts true) else none
+  | ["X"] => some .remove
+  | ["I", r] => (parseRes r).map .incr
+  | ["D", r] => (parseRes r).map .decr
+  | _ => none
+
+def parseRM (s : String) : Option ResourceUpd.RM :=
+  match s.splitOn "/" with
+  | [m, c] => do
+    let m ← parseMaxes m
+    let c ← parseCurs c
+    pure ⟨m, c⟩
+  | _ => none
+
+def parseObs (tok : String) : Option ResourceUpd.Obs :=
+  match tok.splitOn "|" with
+  | [res, live, host, reb] => do
+    let r ← if res == "ok" then some ResourceUpd.Res.ok else if res == "err" then some ResourceUpd.Res.err else if res == "absent" then some ResourceUpd.Res.absent else none
+    let l ← if live == "absent" then some none else (parseRM live).map some
+    let h ← if host == "-" then some none else (parseRM host).map some
+    let b ← if reb == "absent" then some none else (parseMaxes reb).map some
+    pure ⟨r, l, h, b⟩
+  | _ => none
+
+def renderMaxes (m : Maxes) : String := s!"{m.connections},{m.pendingRequests},{m.requests},{m.retries}"
+def renderRM (r : ResourceUpd.RM) : String :=
+  s!"{renderMaxes r.max}/{r.cur.connections},{r.cur.pendingRequests},{r.cur.requests},{r.cur.retries}"
+def renderObs (o : ResourceUpd.Obs) : String :=
+  let r := match o.res with | .ok => "ok" | .err => "err" | .absent => "absent"
+  let l := match o.live with | none => "absent" | some x => renderRM x
+  let h := match o.host with | none => "-" | some x => renderRM x
+  let b := match o.reb with | none => "absent" | some x => renderMaxes x
+  s!"{r}|{l}|{h}|{b}"
+
+def drive (opToks impl : List String) : String :=
+  if impl.any (fun t => (t.splitOn "|").head? == some "panic") then "D V operation-panicked" else
+  match opToks.mapM parseOp, impl.mapM parseObs with
+  | some ops, some iobs =>
+    let mobs := ResourceUpd.trace ResourceUpd.init ops
+    let mout := joinWith " " (mobs.map renderObs)
+    let agree := joinWith " " impl == mout
+    let spec := ResourceUpd.Spec.holds ops iobs
+    s!"{if agree then "A" else "D"} {if spec then "S" else "V"} {mout}"
+  | _, _ => "E E bad-rsrc-case"
+end Rsrc
+
 def run (caseToks impl : List String) : String :=
   match caseToks with
   | "hist" :: ops => hist ops impl
   | "mode" :: ops => mode ops impl
+  | "rsrc" :: ops => Rsrc.drive ops impl
   | ["rlock", i, a, b, _] => rlock i a b impl
   | "dump" :: items => Dump.drive items impl
   | ["rm", _, hs, as] => rm hs as impl
